@@ -75,6 +75,15 @@ def run(ctx, rep):
         pen = P.L1(a, pos)
         sols["AndersonCD"] = AndersonCD(tol=1e-10, fit_intercept=False, max_iter=300).solve(X, y, compiled(D.Quadratic()), compiled(pen))[0]
         sols["GramCD"] = GramCD(tol=1e-10, max_iter=20000, greedy_cd=False).solve(X, y, None, compiled(pen))[0]
+        # every knob setting of a solver must reach the same optimum: acceleration on, greedy rule, warm start
+        sols["GramCD(use_acc)"] = GramCD(tol=1e-10, max_iter=20000, greedy_cd=False, use_acc=True).solve(
+            X, y, None, compiled(pen))[0]
+        sols["GramCD(greedy)"] = GramCD(tol=1e-10, max_iter=20000, greedy_cd=True).solve(X, y, None, compiled(pen))[0]
+        w_warm = np.abs(wt.copy()) if pos else wt.copy()
+        sols["GramCD(use_acc, warm)"] = GramCD(tol=1e-10, max_iter=20000, greedy_cd=False, use_acc=True).solve(
+            X, y, None, compiled(pen), w_warm)[0]
+        sols["AndersonCD(fixpoint)"] = AndersonCD(tol=1e-10, fit_intercept=False, max_iter=300, ws_strategy="fixpoint").solve(
+            X, y, compiled(D.Quadratic()), compiled(pen))[0]
         dq = compiled(D.Quadratic())
         dq.initialize(X, y)
         sols["FISTA"] = FISTA(tol=1e-10, max_iter=50000).solve(X, y, dq, compiled(pen))[0]
